@@ -160,3 +160,43 @@ GROUPS.append(Group('Z2', 'every AnsiStr method is its AnsiString counterpart on
                     ['C13', 'C08'], 'U', ['AnsiStr.' + m for m in sorted(ANSISTR_METHODS)], z2_items, z2_task,
                     bounds='none: abstract receiver, every AnsiString method an uninterpreted state transformer; '
                     'arguments symbolic and typed', assumes=['V5', 'V3']))
+
+
+# ============================================================================================= Z1: AnsiStr.__new__
+CL_Z1 = [
+    Clause('is-an-AnsiStr', 'post_new_is_ansistr'),
+    Clause('wraps-what-AnsiString-would-build', 'post_new_equiv_ansistring'),
+    Clause('payload-is-own-rendering', 'post_new_payload_is_rendering'),
+    Clause('wraps-a-private-copy', 'post_new_private_copy'),
+]
+RAISES_Z1 = {'TypeError': None}
+
+
+def z1_items(tier):
+    return [[src, ns] for src in ('str', 'ansistring', 'ansistr', 'int') for ns in (0, 1, 2)]
+
+
+def z1_task(envr, item):
+    src, ns = item
+
+    def body(c):
+        ab.install(c)
+        if src == 'str':
+            T = c.opaque_text('Ts')
+            T.escfree = True
+            s = sym.s_opaque(T)
+        elif src == 'ansistring':
+            s = ab.abstract_ansistring(c, 's')[0]
+        elif src == 'ansistr':
+            s = wrapped_ansistr(c, 's')[0]
+        else:
+            s = c.named_int('s')
+        settings = [mk_arg(c, 'settings', 'set%d' % i) for i in range(ns)]
+        run_contract(envr, c, 'AnsiStr.__new__', None, [ClassRef('AnsiStr'), s] + settings, {}, CL_Z1, raises=RAISES_Z1,
+                     fields={'AnsiString': ClassRef('AnsiString')}, frame=('s',), arg_names=['cls', 's'])
+    return ContractRun(body, CL_Z1, raises=RAISES_Z1, frame=('s',), use=('GENERIC',), names=['cls', 's'])
+
+
+GROUPS.append(Group('Z1', 'AnsiStr(source, *settings) wraps a private copy of what AnsiString(source, *settings) builds; its str '
+                    'payload is its own rendering', ['C13', 'C08'], 'U', ['AnsiStr.__new__'], z1_items, z1_task,
+                    bounds='none: source str / abstract AnsiString / AnsiStr, 0-2 settings arguments', assumes=['V5']))
